@@ -1,4 +1,6 @@
 import ParsecVerif.Proofs.Ptg
+import ParsecVerif.Props.Runtime
+import ParsecVerif.Proofs.PtgRt3
 /-!
 # C01 — every PTG task instance runs exactly once  (enumeration / counting half)
 
@@ -17,8 +19,13 @@ This file carries the part of C01 that is about the execution space itself, for 
   instances, and the successor iterator's range test rejects every instance of such a class.  Replayed on the real
   generated code by checks/C01.py (corpus/C01/001-negstep-startup.case, 002-negstep-target.case).
 
-The dataflow-machine half (`C01_exactly_once` for every schedule of the abstract runtime) is built on top of this
-file by the lead; `WellFormed` (Model/Ptg.lean) is the hypothesis it will use.
+The dataflow-machine half is at the end of this file (section "Exactly once under every schedule"): the task graph
+`PtgRt.graphOf p` of a `WellFormed` program is a well-formed dataflow graph (`C01_graph_wf`), hence — by the theorems of
+`Props/Runtime.lean`, which hold for every worker count, every AGAIN pattern and every interleaving —
+`C01_exactly_once`: in every maximal run every instance of the space has completed exactly once and nothing else ever
+starts, answers AGAIN or completes; `C01_never_twice`: at no moment of any run has an instance completed twice;
+`C01_no_deadlock` / `C01_terminates`: a run that is not complete can always be extended and every transition decreases
+a natural measure.
 -/
 namespace ParsecVerif.C01
 open ParsecVerif.Ptg
@@ -176,5 +183,60 @@ example : StepsPositive (example1.classes[0]!.sems example1.globals) [] := by de
 example : (space example1 0).length = 16 ∧ (startupEnum example1 0).map List.length = some 4 := by decide
 example : WellFormed example1 = true := by decide
 example : announcedNbTasks example1 1 3 = 3 := by decide
+
+/-! ### Exactly once under every schedule (abstract runtime on the task graph of the program) -/
+section runtime
+open ParsecVerif.PtgRt ParsecVerif.Dataflow ParsecVerif.Runtime
+
+variable {F : Nat → List (Option Nat) → Nat}
+
+/-- the instantiation: the task graph of a well-formed program is a well-formed dataflow graph -/
+theorem C01_graph_wf (p : Program) (cfg : Cfg) (h : WellFormed p = true) : WF (graphOf p cfg) id := graphOf_WF p cfg h
+
+theorem nodeOf_getElem (p : Program) (i : Nat) (hi : i < (allInstances p).length) : nodeOf p (allInstances p)[i] = some i := by
+  unfold nodeOf ixOf
+  rw [List.idxOf?_eq_some_iff]
+  refine ⟨hi, rfl, ?_⟩
+  intro j hj heq
+  have := (List.getElem_inj (h₀ := by omega) (h₁ := hi) (C01_instances_nodup p)).1 heq
+  omega
+
+/-- **Exactly once.**  In every maximal run (no transition enabled) of the abstract runtime on the task graph of a
+    well-formed program — whatever the scheduler's choices, the number of workers and the AGAIN answers — every instance
+    of the execution space has completed exactly once, and every event of the trace belongs to an instance of the space. -/
+theorem C01_exactly_once (p : Program) (cfg : Cfg) (hwf : WellFormed p = true) (again : List Nat) (ts : List Tr)
+    (hmax : ∀ t, enabled (run (graphOf p cfg) F again ts) t = false) :
+    (∀ t ∈ allInstances p, ∃ j, nodeOf p t = some j ∧ (run (graphOf p cfg) F again ts).log.count (.end_ j) = 1) ∧
+    (∀ ev ∈ (run (graphOf p cfg) F again ts).log, ∃ t ∈ allInstances p, nodeOf p t = some (evNode ev)) := by
+  have hg := graphOf_WF p cfg hwf
+  have hq := maximal_run_is_quiescent (F := F) hg again ts hmax
+  constructor
+  · intro t ht
+    obtain ⟨j, hj⟩ := ixOf_of_mem ht
+    exact ⟨j, hj, quiescent_all_once hg again ts hq j (ixOf_some hj).1⟩
+  · intro ev hev
+    have hlt : evNode ev < (allInstances p).length := log_nodes_lt (F := F) hg again ts ev hev
+    exact ⟨(allInstances p)[evNode ev], List.getElem_mem hlt, nodeOf_getElem p _ hlt⟩
+
+/-- at no moment of any run has an instance completed twice -/
+theorem C01_never_twice (p : Program) (cfg : Cfg) (hwf : WellFormed p = true) (again : List Nat) (ts : List Tr) (j : Nat) :
+    (run (graphOf p cfg) F again ts).log.count (.end_ j) ≤ 1 :=
+  (completes_at_most_once (F := F) (graphOf_WF p cfg hwf) again ts j).1
+
+/-- a run that is not complete can be extended: no deadlock -/
+theorem C01_no_deadlock (p : Program) (cfg : Cfg) (hwf : WellFormed p = true) (again : List Nat) (ts : List Tr)
+    (hq : ¬ quiescent (run (graphOf p cfg) F again ts)) : ∃ t, enabled (run (graphOf p cfg) F again ts) t = true :=
+  deadlock_free (graphOf_WF p cfg hwf) again ts hq
+
+/-- every enabled transition strictly decreases a natural measure: no run is infinite -/
+theorem C01_terminates (p : Program) (cfg : Cfg) (hwf : WellFormed p = true) (again : List Nat) (ts : List Tr) (t : Tr)
+    (hen : enabled (run (graphOf p cfg) F again ts) t = true) :
+    mu (step (graphOf p cfg) F (run (graphOf p cfg) F again ts) t) < mu (run (graphOf p cfg) F again ts) :=
+  step_decreases (graphOf_WF p cfg hwf) again ts t hen
+
+/-- non-vacuity: `example1` (16 instances, a guarded CTL chain) is well formed; its graph has 12 edges -/
+example : (graphOf example1 {}).n = 16 ∧ (graphOf example1 {}).E.length = 12 := by decide
+
+end runtime
 
 end ParsecVerif.C01
